@@ -82,6 +82,11 @@ impl ChannelParser {
                             return Some(Self::type_to_string(inner_type));
                         }
                     }
+                    // A path-qualified Channel without a message type (the command parser does
+                    // not count it as a plain parameter either) still is a channel key
+                    if type_path.path.segments.len() >= 2 {
+                        return Some("unknown".to_string());
+                    }
                 }
                 None
             }
@@ -112,7 +117,8 @@ impl ChannelParser {
         // Check for tauri::* namespace
         if all_segments.len() >= 2 {
             let first = all_segments.first().unwrap().ident.to_string();
-            if first == "tauri" {
+            // tauri::ipc::Channel, tauri::Channel, or ipc::Channel after `use tauri::ipc`
+            if first == "tauri" || (first == "ipc" && all_segments.len() == 2) {
                 return true;
             }
         }
